@@ -73,7 +73,6 @@ def run_histories(chk, name, histories, modes=('sync', 'async'), nontrivial=None
             chk.count(1, key, {'mode': mode, 'ops': [repr(o)[:90] for o in ops[:8]]} if i < 2 else None)
             for o in ops:
                 chk.dist('op ' + o[0])
-            ops = expand(ops)
     ctype, imports, fn, _ = case_kind(name)
     codes, errors = coqio.eval_cases(name, imports, '', ctype, cases, fn, shard=shard)
     chk.traces_validated += len(cases)
